@@ -189,6 +189,16 @@ def run_shard(ctx):
             rest = [x for x in nodes if x not in (a, b)]
             for C in ([], rng.sample(rest, 1), rng.sample(rest, min(len(rest), rng.randint(1, 3)))):
                 query(ctx, g, gd, a, b, sorted(C), gkey, both=False)
+    # dense acyclic 9-node graphs (up to 36 directed edges), small conditioning sets
+    for _ in range(ctx.share({"quick": 60, "thorough": 1500}[ctx.tier])):
+        # (the path enumeration of the real function is exponential: 9 nodes keep it within seconds)
+        gd = gg.random_admg(rng, 9, hostile="none", p_di=rng.choice((0.5, 0.7, 0.95)), p_bi=rng.choice((0.05, 0.15)))
+        g = gg.to_nx(gd)
+        gkey = gg.key(gd)
+        for _q in range(4):
+            a, b = rng.sample(gd["nodes"], 2)
+            rest = [x for x in gd["nodes"] if x not in (a, b)]
+            query(ctx, g, gd, a, b, sorted(rng.sample(rest, rng.randint(0, 2))), gkey, both=False)
     # edit histories: query one graph object, edit it in place, query the same object again
     for _ in range(ctx.share({"quick": 300, "thorough": 6000}[ctx.tier])):
         gd = gg.random_admg(rng, rng.randint(3, 5))
